@@ -1615,7 +1615,21 @@ class Normalizer:
 
     def __init__(self, raw_block: tuple, keep_identity: bool = True):
         self.rounds: list = []
-        block = _index_loops(_param_versions(_if_convert(_ret_peephole(raw_block))))
+        nums = [0]
+
+        def scan(x):
+            if isinstance(x, tuple):
+                if len(x) == 2 and x[0] == "v" and isinstance(x[1], int):
+                    nums[0] = max(nums[0], x[1] + 1)
+                    return
+                for y in x:
+                    scan(y)
+        scan(raw_block)
+
+        def fresh():
+            nums[0] += 1
+            return ("v", 500 + nums[0])
+        block = _index_loops(_param_versions(_if_convert(_ret_peephole(_unfold_list_comps(raw_block, fresh)))))
         defs = single_defs(block, keep_identity)
         for _ in range(6):
             if not defs:
@@ -1711,6 +1725,55 @@ def _if_convert(block: tuple) -> tuple:
                 st = ("while", st[1], _if_convert(st[2]), _if_convert(st[3]))
             elif st[0] == "with" and len(st) == 3:
                 st = ("with", st[1], _if_convert(st[2]))
+        out.append(st)
+    return tuple(out)
+
+
+_UNFOLD_COUNTER = [0]
+
+
+def _unfold_list_comps(block: tuple, fresh) -> tuple:
+    """``xs = [e for v in it if c]`` is ``xs = []; for v in it: if c: xs.append(e)`` (one generator); likewise for a returned
+    list comprehension and for ``ys.extend([...])``: the collecting-loop spelling and the comprehension have one form"""
+    def loop(target, comp):
+        (bv, it, cond), = comp[3]
+        var = fresh()
+        bvars = [bv] if bv[0] != "tuple" else list(bv[1])
+        if bv[0] == "tuple":
+            vs_ = [fresh() for _ in bvars]
+            mapping = dict(zip(bvars, vs_))
+            tgt = ("tuple", tuple(vs_))
+        else:
+            mapping = {bv: var}
+            tgt = var
+        sg = Sigma(raw_subst=mapping)
+        elt = sg.apply(comp[2][0])
+        app = ("expr", ("c", ("a", target, "append"), (elt,), ()))
+        body = (app,) if cond == K_TRUE else (("if", sg.apply(cond), (app,), ()),)
+        return ("for", tgt, it, body, ())
+
+    def simple(comp):
+        return isinstance(comp, tuple) and comp[:2] == ("comp", "list") and len(comp[3]) == 1 and len(comp[2]) == 1 \
+            and not atoms_of(comp[2][0], lambda x: x[0] in ("comp", "lambda")) and not atoms_of(comp[3][0][2], lambda x: x[0] in ("comp", "lambda"))
+    out = []
+    for st in block:
+        if isinstance(st, tuple) and st:
+            if st[0] == "set" and len(st) == 3 and isinstance(st[1], tuple) and st[1][:1] == ("v",) and simple(st[2]):
+                out.append(("set", st[1], ("list", ())))
+                out.append(loop(st[1], st[2]))
+                continue
+            if st[0] == "ret" and simple(st[1]):
+                t = fresh()
+                out.append(("set", t, ("list", ())))
+                out.append(loop(t, st[1]))
+                out.append(("ret", t))
+                continue
+            if st[0] == "if" and len(st) == 4:
+                st = ("if", st[1], _unfold_list_comps(st[2], fresh), _unfold_list_comps(st[3], fresh))
+            elif st[0] == "for" and len(st) == 5:
+                st = ("for", st[1], st[2], _unfold_list_comps(st[3], fresh), _unfold_list_comps(st[4], fresh))
+            elif st[0] == "while" and len(st) == 4:
+                st = ("while", st[1], _unfold_list_comps(st[2], fresh), _unfold_list_comps(st[3], fresh))
         out.append(st)
     return tuple(out)
 
